@@ -421,6 +421,20 @@ def mk_cmp(op, a, b):
     # `t is None` for a term that is certainly an array / a number / a display: decided
     if op in ("is", "is not") and (a == NONE or b == NONE):
         t_ = b if a == NONE else a
+        # next((i for i, x in enumerate(xs) if p(x)), None) is not None   ==   any(p(x) for x in xs)
+        if t_[0] == "call" and t_[1] == ("ext", "builtins.next") and len(t_[2]) == 2 and t_[2][1] == NONE and not t_[3]:
+            m_ = t_[2][0]
+            elt_ok = False
+            if m_[0] == "map" and m_[1][0] == "lam" and m_[1][1] == 1 and m_[2][0] == "filter":
+                body_, f_ = m_[1][2], m_[2]
+                lvl_ = m_[1][3] if len(m_[1]) > 3 else None
+                src_ = f_[2]
+                is_enum = src_[0] == "call" and src_[1] == ("ext", "builtins.enumerate")
+                elt_ok = is_enum and body_[0] == "sub" and body_[1][0] == "bv" and body_[2] == C(0) and (
+                    lvl_ is None or body_[1][1] == lvl_)
+                if elt_ok:
+                    any_ = ("call", ("ext", "builtins.any"), (("map", f_[1], src_),), ())
+                    return any_ if op == "is not" else mk_not(any_)
         if _never_none(t_):
             return C(op == "is not")
     # (k1 if c else k2) == k  with constants: decided by c
@@ -618,6 +632,9 @@ def proj_sub(obj, idx):
                 and obj[2][1][1] >= 0 and obj[2][2] == NONE and obj[2][3] in (NONE, C(1)):
             return proj(obj[1], obj[2][1][1] + idx[1])
         return proj(obj, idx[1])
+    if obj[0] == "excl_scan" and idx == ("slice", C(1), NONE, NONE):
+        # dropping the leading 0 of the exclusive prefix sums leaves the running totals of all but the last item
+        return ("call", ("ext", "itertools.accumulate"), (proj_sub(obj[1], ("slice", NONE, C(-1), NONE)),), ())
     if idx[0] == "slice" and obj[0] == "map":
         # a slice of a mapped sequence is the map of the sliced sequence
         return ("map", obj[1], proj_sub(obj[2], idx))
@@ -1344,8 +1361,18 @@ class Interp:
             if isinstance(n, (ast.Yield, ast.YieldFrom)):
                 own.append(n)
             stack.extend(ast.iter_child_nodes(n))
-        if not own or any(isinstance(n, ast.YieldFrom) for n in own) or any(
-                isinstance(n, ast.Return) and n.value is not None for n in ast.walk(fn)):
+        own_returns = []
+        stack = list(fn.body)
+        while stack:
+            n = stack.pop()
+            if isinstance(n, (ast.FunctionDef, ast.Lambda, ast.ClassDef)):
+                continue
+            if isinstance(n, ast.Return):
+                own_returns.append(n)
+            stack.extend(ast.iter_child_nodes(n))
+        if not own or any(n.value is not None for n in own_returns) or any(
+                isinstance(n, ast.YieldFrom) and not isinstance(p_, ast.Expr)
+                for p_ in ast.walk(fn) for n in ast.iter_child_nodes(p_) if isinstance(n, ast.YieldFrom)):
             cls._GEN_CACHE[k] = fn
             return fn
         import copy
@@ -1364,7 +1391,16 @@ class Interp:
                     return ast.copy_location(ast.Expr(value=ast.Call(
                         func=ast.Attribute(value=ast.Name(id="__gen", ctx=ast.Load()), attr="append", ctx=ast.Load()),
                         args=[v], keywords=[])), node)
+                if isinstance(node.value, ast.YieldFrom):
+                    # `yield from xs` hands on every item of xs: __gen.extend(xs)
+                    return ast.copy_location(ast.Expr(value=ast.Call(
+                        func=ast.Attribute(value=ast.Name(id="__gen", ctx=ast.Load()), attr="extend", ctx=ast.Load()),
+                        args=[node.value.value], keywords=[])), node)
                 return node
+
+            def visit_Return(self, node):
+                # a bare `return` ends the generator: what was yielded so far is the result
+                return ast.copy_location(ast.Return(value=ast.Name(id="__gen", ctx=ast.Load())), node)
         new = Y().visit(new)
         new.body = [ast.Assign(targets=[ast.Name(id="__gen", ctx=ast.Store())], value=ast.List(elts=[], ctx=ast.Load()),
                                lineno=fn.lineno)] + new.body + [ast.Return(value=ast.Name(id="__gen", ctx=ast.Load()))]
@@ -1707,6 +1743,8 @@ class Interp:
                 if cur[0] == "list":
                     if e.func.attr == "append":
                         env.set(name, ("list", cur[1] + (v,)))
+                    elif v[0] in ("tuple", "list") and not any(x[0] == "star" for x in v[1]):
+                        env.set(name, ("list", cur[1] + tuple(v[1])))     # extending by a display appends its items
                     else:
                         env.set(name, ("list", cur[1] + (("star", v),)))
                 else:
@@ -1921,12 +1959,30 @@ class Interp:
         for n in carried:
             v = body_env.get(n)
             new_vals.append(v if isinstance(v, tuple) else ("unknown", f"closure carried {n}"))
+        init_vals = [self.as_term(env.get(n)) for n in carried]  # snapshot before any rebinding
+        # linear induction variables of a counted loop: c = c0; for i in range(n): ...; c = c + K  (K loop-invariant)
+        # has the closed form c == c0 + i*K inside iteration i and c0 + n*K after the loop
+        closed_final = {}
+        if it[0] == "call" and it[1] == ("ext", "builtins.range") and len(it[2]) == 1 and not it[3] and elem == ("bv", d, 0):
+            for j, n in enumerate(carried):
+                v, cb = new_vals[j], ("bv", d, 1 + j)
+                if v[0] == "add" and cb in v[1]:
+                    rest = tuple(x for x in v[1] if x != cb)
+                    if len(rest) == len(v[1]) - 1 and not any(free_bvs(x, d) for x in rest) and not free_bvs(init_vals[j], d):
+                        k_ = rest[0] if len(rest) == 1 else ("add", rest)
+                        closed = mk_add((init_vals[j], mk_mul((elem, k_))))
+                        closed_final[j] = mk_add((init_vals[j], mk_mul((it[2][0], k_))))
+                        for j2 in range(len(new_vals)):
+                            if j2 != j:
+                                new_vals[j2] = subst_free(new_vals[j2], d, lambda t, cb=cb, closed=closed: closed if t == cb else None)
         # dependency graph among carried variables
         deps = []
         for v in new_vals:
             deps.append([i2 - 1 for i2 in free_bvs(v, d) if i2 >= 1])
-        init_vals = [self.as_term(env.get(n)) for n in carried]  # snapshot before any rebinding
         for i, n in enumerate(carried):
+            if i in closed_final:
+                env.set(n, closed_final[i])
+                continue
             order = [i]
             j = 0
             while j < len(order):
@@ -1952,9 +2008,29 @@ class Interp:
     def _fold_as_map(it, bodies, inits, order, d):
         """acc = []; for e in it: acc.append(f(e))            ==  [f(e) for e in it]
            acc = []; for e in it: if c(e): acc.append(f(e))   ==  [f(e) for e in it if c(e)]"""
+        acc = ("bv", d, 1)
+        if len(order) == 1 and inits == (C(0),) and bodies[0][0] == "add" and acc in bodies[0][1]:
+            # total = 0; for e in it: total += g(e)      ==  sum(g(e) for e in it)
+            rest = tuple(x for x in bodies[0][1] if x != acc)
+            if len(rest) == len(bodies[0][1]) - 1 and not any(1 in free_bvs(x, d) for x in rest):
+                g_ = rest[0] if len(rest) == 1 else ("add", rest)
+                return ("call", ("ext", "builtins.sum"), (("map", ("lam", 1, g_, d), it),), ())
+        if len(order) == 2 and inits == (("list", ()), C(0)):
+            # acc = []; c = 0; for e in it: acc.append(c [+ g(e)]); c += g(e)   - prefix sums of g over it:
+            #   appended before the update: exclusive ([0, g0, g0+g1, ...]);  after it: itertools.accumulate
+            c_ = ("bv", d, 2)
+            b0, b1 = bodies
+            if b1[0] == "add" and c_ in b1[1]:
+                rest = tuple(x for x in b1[1] if x != c_)
+                if len(rest) == len(b1[1]) - 1 and not any(set(free_bvs(x, d)) & {1, 2} for x in rest):
+                    g_ = rest[0] if len(rest) == 1 else ("add", rest)
+                    seq_ = ("map", ("lam", 1, g_, d), it)
+                    if b0 == ("call", ("ext", "list.append"), (acc, c_), ()):
+                        return ("excl_scan", seq_)
+                    if b0 == ("call", ("ext", "list.append"), (acc, b1), ()):
+                        return ("call", ("ext", "itertools.accumulate"), (seq_,), ())
         if len(order) != 1 or inits != (("list", ()),):
             return None
-        acc = ("bv", d, 1)
         b = bodies[0]
 
         def app(x):
@@ -2252,6 +2328,21 @@ class Interp:
         v = nt_field(obj, name)
         if v is not None:
             return v
+        if obj[0] == "call" and obj[1][0] == "ext" and obj[1][1] in NT_CLASSES:
+            # a property / method of a repository NamedTuple, read off a constructor call: evaluated with self = the record
+            r_ = self.prog.lookup(obj[1][1])
+            if r_ and r_[0] == "class":
+                ci_ = r_[1]
+                fn_ = ci_.methods.get(name)
+                qn_ = f"{ci_.qualname}.{name}"
+                if fn_ is not None and self.stack.count(qn_) == 0 and self.inline_depth < MAX_INLINE:
+                    if name in ci_.properties:
+                        self.stack.append(qn_)
+                        try:
+                            return self.as_term(self.apply_def(fn_, Env(), (ci_.module, ci_, obj), [obj], {}))
+                        finally:
+                            self.stack.pop()
+                    return BoundMethod(ci_, fn_, ci_, obj, name)
         if name == "shape" and obj[0] == "call" and obj[1] == ("ext", "jax.numpy.broadcast_to") and dict(obj[3]).get("shape"):
             return dict(obj[3])["shape"]
         if obj[0] == "record":
@@ -2457,6 +2548,32 @@ class Interp:
                 r = self.model_scan(args, kwargs)
                 if r is not None:
                     return r
+            if q == "jax.lax.while_loop" and len(args) + len(kwargs) == 3:
+                # a loop state that is a repository NamedTuple: the loop functions see a record whose fields are the
+                # components of a tuple state (so methods of the record can be evaluated), and the result is that
+                # record over the projections of the tuple-state loop
+                b_ = dict(zip(("cond_fun", "body_fun", "init_val"), args))
+                b_.update(kwargs)
+                init_ = self.as_term(b_["init_val"]) if "init_val" in b_ else None
+                if init_ is not None and init_[0] == "call" and init_[1][0] == "ext" and init_[1][1] in NT_CLASSES:
+                    fields_ = NT_CLASSES[init_[1][1]]
+                    vals_ = [nt_field(init_, f_) for f_ in fields_]
+                    if all(v is not None for v in vals_):
+                        d_ = self.depth
+                        st_ = ("bv", d_, 0)
+                        rec_ = ("call", init_[1], (), tuple(sorted((f_, ("sub", st_, C(i_))) for i_, f_ in enumerate(fields_))))
+                        self.depth += 1
+                        try:
+                            c_t = self.as_term(self.call(b_["cond_fun"], [rec_], {}, ctx))
+                            b_t = self.as_term(self.call(b_["body_fun"], [rec_], {}, ctx))
+                        finally:
+                            self.depth -= 1
+                        nv_ = [nt_field(b_t, f_) for f_ in fields_]
+                        if all(v is not None for v in nv_):
+                            w_ = self.call(("ext", "jax.lax.while_loop"),
+                                           [("lam", 1, c_t, d_), ("lam", 1, ("tuple", tuple(nv_)), d_), ("tuple", tuple(vals_))], {}, ctx)
+                            w_ = self.as_term(w_)
+                            return ("call", init_[1], (), tuple(sorted((f_, proj(w_, i_)) for i_, f_ in enumerate(fields_))))
             r = self.prog.lookup(q) if q.startswith("flowjax") else None
             if r and r[0] == "func" and self.inline_repo and q not in self.no_inline and self.stack.count(q) == 0:
                 mctx = (r[1], None, None)
@@ -2532,6 +2649,8 @@ class Interp:
                         (a0[0] == "attr" and a0[2] in ("shape", "cond_shape")) or
                         (a0[0] == "sub" and a0[2][0] == "slice" and a0[1][0] == "attr" and a0[1][2] in ("shape", "cond_shape"))):
                     return a0     # a shape (and a slice of one) is a tuple already
+                if a0[0] in ("map", "filter", "excl_scan"):
+                    return a0     # materialising a lazily produced sequence does not change its elements
                 if a0[0] in ("tuple", "list"):
                     return ("tuple" if q.endswith("tuple") else "list", a0[1])
                 if a0[0] == "call" and a0[1] == ("ext", "builtins.reversed"):
